@@ -161,10 +161,20 @@ def params(tier):
     return dict(n_closed=1, n_digit=1, n_names=1)
 
 
+def c20_strings(ref, typ):
+    """Reduced universe for the configuration family: the concrete Sid, every single-'*' variant, all '*'."""
+    segs = universe.one_per_type(ref)[typ].split("/")
+    yield "/".join(segs)
+    for i in range(len(segs)):
+        yield "/".join(segs[:i] + ["*"] + segs[i + 1:])
+    yield "/".join(["*"] * len(segs))
+    yield "/".join(segs[:1] + ["*"] * (len(segs) - 1))
+
+
 def gen(ref, tier):
     p = params(tier)
     for typ in ref.types:
-        for s in universe.typed_strings(ref, typ, **p):
+        for s in (c20_strings(ref, typ) if tier == "c20" else universe.typed_strings(ref, typ, **p)):
             yield [s, None]
             # forced types that accept the same string but are not the natural one
             nat = ref.natural(s)[0]
